@@ -51,16 +51,28 @@ TEXT = {
         "technique": REF + " (schoolbook polynomial model, structural + semantic checks)",
     },
     "C11": {
-        "text": "sqrt and legendre are executed for all 204 prime-field configurations (tiny ones exhaustively) and for every shipped extension with a square-root algorithm (6 Fp2, 2 Fp4, 6 Fp3, 5 Fp6 2-over-3) plus four toy towers exhaustively. Elements: 0, 1, -1, generator^odd, squares, manufactured non-residues, base-field and subfield elements by residuosity, and elements of exact order 2^j for every j up to the two-adicity (Tonelli-Shanks worst cases). Oracle: Euler criterion by num-bigint modpow (towers: quadratic character of the norm chain, itself cross-checked against x^((q-1)/2) in the schoolbook model) and squaring of the returned root in the model; Some/None must match residuosity exactly and sqrt(0)=0.",
+        "text": "(field part, mon_ff) sqrt and legendre are executed for all 204 prime-field configurations (tiny ones exhaustively) and for every shipped extension with a square-root algorithm (6 Fp2, 2 Fp4, 6 Fp3, 5 Fp6 2-over-3) plus four toy towers exhaustively. Elements: 0, 1, -1, generator^odd, squares, manufactured non-residues, base-field and subfield elements by residuosity, and elements of exact order 2^j for every j up to the two-adicity (Tonelli-Shanks worst cases). Oracle: Euler criterion by num-bigint modpow (towers: quadratic character of the norm chain, itself cross-checked against x^((q-1)/2) in the schoolbook model) and squaring of the returned root in the model; Some/None must match residuosity exactly and sqrt(0)=0. (curve part, mon_ec) get_ys_from_x_unchecked / get_xs_from_y_unchecked / get_point_from_*_unchecked are run on every field element of the 11 toy curves (solutions enumerated oracle-side) and on structural + uniform coordinates of the 47 shipped curves: both solutions, negatives of each other, smaller first in the documented order, None exactly when no solution exists.",
         "design_ref": "DESIGN.md §4 C11",
         "note": "trusted: num-bigint, the schoolbook tower model; sampled except tiny fields/toy towers.",
         "technique": REF + " (Euler-criterion oracle, root squared in the model)",
+    },
+    "C12": {
+        "text": "For all 47 shipped curve configurations and the toy curves (every point), points of E(F_q) generated from arbitrary x / y coordinates without cofactor clearing (so mostly outside the subgroup when h > 1; a per-curve requirement of > 30% outside points for cofactor > 1 short-Weierstrass curves), small-order points r*T, sums subgroup+torsion, the identity and subgroup points are pushed through is_in_correct_subgroup_assuming_on_curve (must equal r*P = O by the textbook law, including the endomorphism-based tests of bls12_381 g1/g2, bn254 g2, test-curves g2), clear_cofactor (result in the subgroup and equal to [h_eff]*P, homomorphism), mul_by_cofactor(_to_group), mul_by_cofactor_inv (inverse on the subgroup) and UniformRand (samples in the subgroup).",
+        "design_ref": "DESIGN.md §4 C12",
+        "note": "sampled on shipped curves, exhaustive on toy curves; reference multiplications by r are the dominating cost (12 points per curve in the quick tier).",
+        "technique": REF + " (definition r*P = O / [h_eff]*P with the textbook law)",
     },
     "C13": {
         "text": "The real DefaultFieldHasher, SWUMap, WBMap, Elligator2Map and MapToCurveBasedHasher are run on ~16 000 (quick) / ~157 000 (thorough) events: messages and tags (tags longer than 255 bytes, every output length up to the 255*b_len limit, block-boundary message lengths), seven hash functions, ten suites/configurations (BLS12-381 G1/G2 from both crates, BLS12-377 G1/G2, bandersnatch Elligator2, three toy configurations enumerated over the whole field), structural, crafted and uniform field elements (u = 0, zeros of Z^2u^4+Zu^2, g(x1) = 0, rational isogeny-kernel points solved for offline). Every result is checked in-process (on curve, sgn0 rule, r*P = 0, determinism, totality) and recomputed stage by stage by an independent RFC 9380 implementation in Python (hashlib + integers) over the recorded event log; that reference first validates itself against the published RFC vectors on every run.",
         "design_ref": "DESIGN.md §4 C13",
         "note": "trusted: Python hashlib/ints reference (self-validated against RFC vectors each run); isogeny/curve constants are exported from the repository (C16 checks their defining equations). Sampled except toy configurations.",
         "technique": REF + " + offline checker over the recorded event log (independent RFC 9380 implementation)",
+    },
+    "C19": {
+        "text": "Pools in which every mathematical object occurs several times through different histories are built for BigInt<N>, all 204 prime-field configurations, 28 towers, all 47 shipped curves (projective rescalings, affine vs projective, P+Q-Q, k*P through five paths, non-canonical identities), every point of the toy curves, pairing outputs of five engines (e(aP,Q), e(P,aQ), e(P,Q)^a) and dense/sparse polynomials (operator sequences, conversions); all pairs of each pool are checked: == in both directions and across affine/projective agrees with oracle identity, equal objects hash equally, cmp/partial_cmp are antisymmetric, agree with == and equal the integer order (prime fields, BigInt) or the documented lexicographic order (extensions), transitivity on random triples, sort() equals the oracle order, HashSet/BTreeSet/HashMap keyed by the values have the cardinality of the set of mathematical objects, and is_zero/is_one agree with comparison against the constants.",
+        "design_ref": "DESIGN.md §4 C19",
+        "note": "pools are sampled (toy curves: all points); identity decided by the oracle models.",
+        "technique": REF + " (all-pairs pool comparison against oracle identity and order)",
     },
     "C17": {
         "text": "Dense and sparse multilinear extensions on 0..8 (thorough 12) variables are compared with the direct sum over the hypercube at every Boolean point (n <= 6) and at non-Boolean points; fix_variables for every k, every valid relabel window, concatenation and all operators are compared with the transformation applied to the plain table; dense and sparse forms are cross-compared. Sparse multivariate polynomials built from term lists with duplicates, zero coefficients and unordered or repeated variables are compared with a map-of-monomials model (canonical form, degree, values, operators); SparseTerm ordering is checked to be the documented total order on all triples of a 60-term pool.",
